@@ -1,5 +1,5 @@
 (* C07 -- a response is delivered only to the connection that sent its request, in order. *)
-From MH Require Import proofs.Server_proofs proofs.Write_proofs proofs.Progress_proofs proofs.Provenance_proofs proofs.Stream_proofs.
+From MH Require Import proofs.Server_proofs proofs.Write_proofs proofs.Progress_proofs proofs.Provenance_proofs proofs.Stream_proofs proofs.RunStream_proofs.
 
 (* The token the application holds for a yielded request is the descriptor number.  In every
    world reachable by any client behaviour, any event order and ANY choice of unused descriptor
@@ -261,6 +261,29 @@ Proof. exact canonical_gstep. Qed.
 Theorem C07_executable_poll_truthful : forall BUF w toks, Inv BUF w toks -> Forall (evt_true w) (ready_events w).
 Proof. exact ready_events_true. Qed.
 
+(* ... and so is every operation of the server interpreter of run/Run.v (the one the correspondence run executes
+   against the real server): after ANY operation list -- connects, sends, closes, half-closes, client reads, polls,
+   polls to quiescence, responses to any held token, flushes, kill, limit changes -- in which every connect uses a
+   client number not used before, the whole-stream statement holds for the interpreter's world, the tokens it holds
+   and the bookkeeping computed alongside (ghost_ops: received bytes from the growth of the receive queues, supplied
+   responses from the respond operations, yields from the polls) *)
+Theorem C07_executed_histories_stream : forall BUF, (2 <= BUF)%nat -> N.of_nat BUF < U32_LIMIT ->
+  forall ops id hk, connects_fresh [] ops ->
+  let w := fst (run_srv_ops BUF id 0 hk world0 ops) in
+  stream_statement w (ytoks (w_tokens w)) (ghost_ops BUF id 0 hk world0 ghost0 ops).
+Proof. exact executed_histories_stream. Qed.
+Theorem C07_stream_statement_is : forall w toks G, stream_statement w toks G <->
+  exists (beta : nat -> nat) (log : nat -> list item),
+    (forall g g', (g < w_nextg w)%nat -> (g' < w_nextg w)%nat -> beta g = beta g' -> g = g') /\
+    (forall fd x, alookup fd (w_conns w) = Some x -> beta (sc_gid x) = sc_client x) /\
+    (forall fd g, In (fd, g) toks -> exists x, alookup fd (w_conns w) = Some x /\ sc_gid x = g) /\
+    (forall g, gens_ok (log g) /\ subseq (apps (log g)) (g_sup G g)) /\
+    (forall g, (length (g_sup G g) + count_g g toks = g_yld G g)%nat) /\
+    forall c, g_rcv G c = [] \/
+              (g_rcv G c = SERVER_FULL_ERROR_MESSAGE /\ forall g, (g < w_nextg w)%nat -> beta g <> c) \/
+              exists g tail, (g < w_nextg w)%nat /\ beta g = c /\ g_rcv G c ++ tail = ser (log g).
+Proof. intros; reflexivity. Qed.
+
 (* non-vacuity: connect, send a request, two polls, the application answers, one more poll: the client has
    received exactly that response *)
 Example C07_stream_example :
@@ -297,3 +320,5 @@ Print Assumptions C07_stream_histories.
 Print Assumptions C07_executable_poll_is_a_step.
 Print Assumptions C07_executable_poll_truthful.
 Print Assumptions C07_stream_example.
+Print Assumptions C07_executed_histories_stream.
+Print Assumptions C07_stream_statement_is.
